@@ -33,9 +33,12 @@ fn auto_seed(r: &RawSeed, fmt: &str, nested: &[(&str, usize)], flat_header: usiz
 }
 
 macro_rules! counted {
-    ($rec:expr, $ep:expr, $input:expr, |$c:ident| $body:expr) => {{
+    ($rec:expr, $ep:expr, $input:expr, |$c:ident| $body:expr) => {
+        counted!(call, $rec, $ep, $input, |$c| $body)
+    };
+    ($m:ident, $rec:expr, $ep:expr, $input:expr, |$c:ident| $body:expr) => {{
         let mut $c = CountingCursor::new($input);
-        let r = $rec.call($ep, || $body);
+        let r = $rec.$m($ep, || $body);
         $rec.max_consumed = $rec.max_consumed.max($c.max_end);
         r
     }};
@@ -54,14 +57,14 @@ impl Format for M2 {
     fn run(&self, _seed: &Seed, input: &[u8], rec: &mut Recorder, _scratch: &Path) {
         use wow_m2::{parse_m2, M2Model};
         let fmt = counted!(rec, "m2::parse_m2", input, |c| parse_m2(&mut c));
-        let _ = counted!(rec, "M2Model::parse", input, |c| M2Model::parse(&mut c));
-        let _ = counted!(rec, "M2Header::parse", input, |c| wow_m2::header::M2Header::parse(&mut c));
+        let _ = counted!(leaf, rec, "M2Model::parse", input, |c| M2Model::parse(&mut c));
+        let _ = counted!(leaf, rec, "M2Header::parse", input, |c| wow_m2::header::M2Header::parse(&mut c));
         if let Some(f) = fmt {
             let model = f.model();
-            let _ = rec.call("M2Model::parse_all_data", || model.parse_all_data(input));
-            let _ = rec.call("M2Model::parse_all_embedded_skins", || model.parse_all_embedded_skins(input));
-            let _ = rec.call("M2Model::parse_embedded_skin[0]", || model.parse_embedded_skin(input, 0));
-            let _ = rec.call("m2::extract_embedded_skin_bytes[0]", || wow_m2::embedded_skin::extract_embedded_skin_bytes(input, 0));
+            let _ = rec.leaf("M2Model::parse_all_data", || model.parse_all_data(input));
+            let _ = rec.leaf("M2Model::parse_all_embedded_skins", || model.parse_all_embedded_skins(input));
+            let _ = rec.leaf("M2Model::parse_embedded_skin[0]", || model.parse_embedded_skin(input, 0));
+            let _ = rec.leaf("m2::extract_embedded_skin_bytes[0]", || wow_m2::embedded_skin::extract_embedded_skin_bytes(input, 0));
         }
     }
 }
@@ -76,11 +79,11 @@ impl Format for Skin {
     }
     fn run(&self, _seed: &Seed, input: &[u8], rec: &mut Recorder, _scratch: &Path) {
         use wow_m2::skin::{parse_embedded_skin, parse_skin, OldSkin, Skin as NewSkin, SkinFile};
-        let _ = counted!(rec, "m2::parse_skin", input, |c| parse_skin(&mut c));
-        let _ = counted!(rec, "SkinFile::parse", input, |c| SkinFile::parse(&mut c));
-        let _ = counted!(rec, "Skin::parse", input, |c| NewSkin::parse(&mut c));
-        let _ = counted!(rec, "OldSkin::parse", input, |c| OldSkin::parse(&mut c));
-        let _ = counted!(rec, "m2::parse_embedded_skin[version 256]", input, |c| parse_embedded_skin(&mut c, 256));
+        let _ = counted!(leaf, rec, "m2::parse_skin", input, |c| parse_skin(&mut c));
+        let _ = counted!(leaf, rec, "SkinFile::parse", input, |c| SkinFile::parse(&mut c));
+        let _ = counted!(leaf, rec, "Skin::parse", input, |c| NewSkin::parse(&mut c));
+        let _ = counted!(leaf, rec, "OldSkin::parse", input, |c| OldSkin::parse(&mut c));
+        let _ = counted!(leaf, rec, "m2::parse_embedded_skin[version 256]", input, |c| parse_embedded_skin(&mut c, 256));
     }
 }
 
@@ -95,11 +98,11 @@ impl Format for Anim {
     fn run(&self, _seed: &Seed, input: &[u8], rec: &mut Recorder, _scratch: &Path) {
         use wow_m2::{AnimFile, AnimFormat};
         let parsed = counted!(rec, "AnimFile::parse", input, |c| AnimFile::parse(&mut c));
-        let _ = counted!(rec, "AnimFile::parse_validated", input, |c| AnimFile::parse_validated(&mut c));
-        let _ = counted!(rec, "AnimFile::parse_with_format[Legacy]", input, |c| AnimFile::parse_with_format(&mut c, AnimFormat::Legacy));
-        let _ = counted!(rec, "AnimFile::parse_with_format[Modern]", input, |c| AnimFile::parse_with_format(&mut c, AnimFormat::Modern));
+        let _ = counted!(leaf, rec, "AnimFile::parse_validated", input, |c| AnimFile::parse_validated(&mut c));
+        let _ = counted!(leaf, rec, "AnimFile::parse_with_format[Legacy]", input, |c| AnimFile::parse_with_format(&mut c, AnimFormat::Legacy));
+        let _ = counted!(leaf, rec, "AnimFile::parse_with_format[Modern]", input, |c| AnimFile::parse_with_format(&mut c, AnimFormat::Modern));
         if let Some(a) = parsed {
-            rec.call_plain("AnimFile::memory_usage", || {
+            rec.leaf_plain("AnimFile::memory_usage", || {
                 let _ = a.memory_usage();
             });
         }
@@ -110,24 +113,24 @@ impl Format for Anim {
 
 fn wmo_entries(input: &[u8], rec: &mut Recorder, group: bool) {
     use wow_wmo::{discover_wmo_chunks, parse_wmo, parse_wmo_with_metadata, WmoGroupParser, WmoParser};
-    let _ = counted!(rec, "wmo::parse_wmo", input, |c| parse_wmo(&mut c));
-    let _ = counted!(rec, "wmo::parse_wmo_with_metadata", input, |c| parse_wmo_with_metadata(&mut c));
+    let _ = counted!(leaf, rec, "wmo::parse_wmo", input, |c| parse_wmo(&mut c));
+    let _ = counted!(leaf, rec, "wmo::parse_wmo_with_metadata", input, |c| parse_wmo_with_metadata(&mut c));
     let disc = counted!(rec, "wmo::discover_wmo_chunks", input, |c| discover_wmo_chunks(&mut c));
-    let _ = counted!(rec, "WmoParser::parse_root", input, |c| WmoParser::new().parse_root(&mut c));
-    let _ = counted!(rec, "WmoGroupParser::parse_group", input, |c| WmoGroupParser::new().parse_group(&mut c, 0));
+    let _ = counted!(leaf, rec, "WmoParser::parse_root", input, |c| WmoParser::new().parse_root(&mut c));
+    let _ = counted!(leaf, rec, "WmoGroupParser::parse_group", input, |c| WmoGroupParser::new().parse_group(&mut c, 0));
     if let Some(d) = disc {
         if group {
-            let _ = counted!(rec, "wmo::group_parser::parse_group_file", input, |c| wow_wmo::group_parser::parse_group_file(&mut c, d).map_err(|e| e.to_string()));
+            let _ = counted!(leaf, rec, "wmo::group_parser::parse_group_file", input, |c| wow_wmo::group_parser::parse_group_file(&mut c, d).map_err(|e| e.to_string()));
         } else {
-            let _ = counted!(rec, "wmo::root_parser::parse_root_file", input, |c| wow_wmo::root_parser::parse_root_file(&mut c, d).map_err(|e| e.to_string()));
+            let _ = counted!(leaf, rec, "wmo::root_parser::parse_root_file", input, |c| wow_wmo::root_parser::parse_root_file(&mut c, d).map_err(|e| e.to_string()));
         }
     }
     // the other kind's parser on this file (a caller cannot know the kind of a hostile file)
     if let Some(d) = counted!(rec, "wmo::chunk_discovery::discover_chunks", input, |c| wow_wmo::chunk_discovery::discover_chunks(&mut c).map_err(|e| e.to_string())) {
         if group {
-            let _ = counted!(rec, "wmo::root_parser::parse_root_file[on a group file]", input, |c| wow_wmo::root_parser::parse_root_file(&mut c, d).map_err(|e| e.to_string()));
+            let _ = counted!(leaf, rec, "wmo::root_parser::parse_root_file[on a group file]", input, |c| wow_wmo::root_parser::parse_root_file(&mut c, d).map_err(|e| e.to_string()));
         } else {
-            let _ = counted!(rec, "wmo::group_parser::parse_group_file[on a root file]", input, |c| wow_wmo::group_parser::parse_group_file(&mut c, d).map_err(|e| e.to_string()));
+            let _ = counted!(leaf, rec, "wmo::group_parser::parse_group_file[on a root file]", input, |c| wow_wmo::group_parser::parse_group_file(&mut c, d).map_err(|e| e.to_string()));
         }
     }
 }
@@ -170,8 +173,8 @@ impl Format for Adt {
     }
     fn run(&self, _seed: &Seed, input: &[u8], rec: &mut Recorder, _scratch: &Path) {
         use wow_adt::{discover_chunks, parse_adt, parse_adt_with_metadata};
-        let _ = counted!(rec, "adt::parse_adt", input, |c| parse_adt(&mut c));
-        let _ = counted!(rec, "adt::parse_adt_with_metadata", input, |c| parse_adt_with_metadata(&mut c));
-        let _ = counted!(rec, "adt::discover_chunks", input, |c| discover_chunks(&mut c));
+        let _ = counted!(leaf, rec, "adt::parse_adt", input, |c| parse_adt(&mut c));
+        let _ = counted!(leaf, rec, "adt::parse_adt_with_metadata", input, |c| parse_adt_with_metadata(&mut c));
+        let _ = counted!(leaf, rec, "adt::discover_chunks", input, |c| discover_chunks(&mut c));
     }
 }
